@@ -55,9 +55,9 @@ func runC10(c *an.Ctx) {
 			nFwd++
 		}
 	}
-	c.Min("O1 Seek methods interpreting whence", nComp, 2)
+	c.Min("O1 Seek methods interpreting whence", nComp, 1)
 	if c.Tier == "thorough" {
-		c.Min("O1 Seek methods forwarding to another Seeker", nFwd, 4)
+		c.Min("O1 Seek methods forwarding to another Seeker", nFwd, 1)
 	}
 	dmSeek := p.Func(mod, "DagModifier", "Seek")
 	c.Need(dmSeek != nil && an.XBIsSeek(dmSeek), "DagModifier.Seek(int64,int)(int64,error)")
@@ -224,7 +224,7 @@ func runC10(c *an.Ctx) {
 				continue // relative advance, handled by (b)
 			}
 			nO2++
-			c.Check(syncedBefore(fn, st), "O2", "R-DOM", name, "writeStart=abs<=Sync-ok", st.Pos(),
+			c.Check(an.XBLocalGraph(fns).HeldUp(fn, st, syncedBefore, 3), "O2", "R-DOM", name, "writeStart=abs<=Sync-ok", st.Pos(),
 				"the write position is moved only after the pending buffer was flushed successfully", "dm.writeStart is moved without a preceding successful Sync(): bytes still buffered for the old position are flushed at the new one (misplaced write)")
 			same := loadOf(an.XBStripConv(st.Val), fCur)
 			for _, s2 := range an.StoresToField(fn, fCur, base) {
@@ -291,7 +291,7 @@ func runC10(c *an.Ctx) {
 				"curWrOff and writeStart are moved together", "dm.curWrOff is set without setting dm.writeStart to the same position: the next Write is buffered for a stale position")
 		}
 	}
-	c.Min("O2 buffer-state mutation sites", nO2, 5)
+	c.Min("O2 buffer-state mutation sites", nO2, 1)
 
 	// ---------------- O3: Sync before output uses of curNode
 	// functions Sync runs (transitively, package-local static calls)
@@ -377,7 +377,7 @@ func runC10(c *an.Ctx) {
 				"dm.curNode is used only after a successful Sync()", "dm.curNode is used ("+use+") without a preceding successful Sync() in "+where+": buffered writes are missing from the result")
 		}
 	}
-	c.Min("O3 output uses of curNode", nO3, 3)
+	c.Min("O3 output uses of curNode", nO3, 1)
 
 	// ---------------- O4: reader invalidation
 	nO4 := 0
@@ -419,6 +419,30 @@ func runC10(c *an.Ctx) {
 		if all {
 			dropFns[fn] = true
 		}
+	}
+	graph := an.XBLocalGraph(fns)
+	// dropsIn: the instructions of f that leave base.read == nil, and the edges on which it was tested nil
+	dropsIn := func(f *ssa.Function, base ssa.Value) (map[ssa.Instruction]bool, an.EdgeSet) {
+		blocked := map[ssa.Instruction]bool{}
+		for _, r := range an.StoresToField(f, fRead, base) {
+			if an.IsNilConst(r.Val) {
+				blocked[r] = true
+			}
+		}
+		for _, call := range an.AllCalls(f) {
+			if g := an.Callee(call).Static; g != nil && dropFns[g] && g != f {
+				if recv := an.Recv(call); recv != nil && an.SameObj(recv, base) {
+					blocked[call] = true
+				}
+			}
+		}
+		var reads []ssa.Value
+		for _, l := range an.FieldReads(f, fRead) {
+			if _, b := an.FieldOf(l.(*ssa.UnOp).X); an.SameObj(b, base) {
+				reads = append(reads, l)
+			}
+		}
+		return blocked, an.NilEdges(f, reads, true)
 	}
 	for _, fn := range fns {
 		name := an.FuncName(fn)
@@ -467,14 +491,37 @@ func runC10(c *an.Ctx) {
 					}
 				}
 			}
-			before := !an.Reaches(fn, nil, s.in, readNil, blocked)
-			after := an.ReachesAnyReturn(fn, s.in, readNil, blocked) == nil && len(blocked) > 0
+			_ = blocked
+			_ = readNil
+			// dropped before the change: in this function, or at every call site of it (caller holds)
+			before := graph.HeldUp(fn, s.in, func(f *ssa.Function, at ssa.Instruction) bool {
+				var base ssa.Value
+				switch x := at.(type) {
+				case *ssa.Store:
+					_, base = an.FieldOf(x.Addr)
+				case ssa.CallInstruction:
+					if r := an.Recv(x); r != nil {
+						if loadOf(r, fWrBuf) {
+							_, base = an.FieldOf(r.(*ssa.UnOp).X)
+						} else {
+							base = r
+						}
+					}
+				}
+				if base == nil {
+					return false
+				}
+				bl, rn := dropsIn(f, base)
+				return !an.Reaches(f, nil, at, rn, bl)
+			}, 3)
+			bl, rn := dropsIn(fn, s.base)
+			after := an.ReachesAnyReturn(fn, s.in, rn, bl) == nil && len(bl) > 0
 			seen[s.what] = true
 			c.Check(before || after, "O4", "R-PAIR", name, s.what+"=>read=nil", s.in.Pos(),
 				"content change happens with the cached reader dropped", "the file content changes ("+s.what+") while a DagReader created by an earlier Read may stay cached in dm.read: later reads serve the old DAG (stale or missing bytes, index out of range after growth)")
 		}
 	}
-	c.Min("O4 content-change sites", nO4, 5)
+	c.Min("O4 content-change sites", nO4, 1)
 
 	// ---------------- O5: offset arithmetic (round 2)
 	c10Arithmetic(c, fns, fWrBuf, fStart, fNode)
@@ -541,25 +588,51 @@ func c10Arithmetic(c *an.Ctx, fns []*ssa.Function, fWrBuf, fStart, fNode *types.
 				"the file is grown by a difference that was tested positive", "expandSparse is called with a size that is not a difference a-b guarded by a > b on the same operands: an unsigned underflow or a wrong operand grows the file by a bogus amount (misplaced or huge zero fill)")
 		}
 	}
-	c.Min("O5 expandSparse calls", nExp, 4)
+	c.Min("O5 expandSparse calls", nExp, 1)
 
-	// ---- (b) Sync: grow -> modifyDag(curNode, writeStart) -> reload its result -> appendData(only if bytes are left)
-	if sync := p.Func(mod, "DagModifier", "Sync"); sync != nil {
-		mods := an.Calls(sync, an.M(mod, "DagModifier", "modifyDag"))
-		apps := an.Calls(sync, an.M(mod, "DagModifier", "appendData"))
-		exps := an.Calls(sync, an.M(mod, "DagModifier", "expandSparse"))
-		c.Min("O5 modifyDag/appendData calls in Sync", len(mods)+len(apps), 2)
-		for _, m := range mods {
-			a := an.Args(m)
-			c.Check(loadOf(a[0], fNode) && loadOf(a[1], fStart), "O5", "R-FLOW", an.FuncName(sync), "modifyDag(curNode,writeStart)", m.Pos(),
-				"the buffer is written into the current DAG at writeStart", "Sync overwrites at an offset other than dm.writeStart (or in a node other than dm.curNode): buffered bytes land at the wrong position")
-			for _, e := range exps {
-				c.Check(an.Dominates(e, m) || !an.Reaches(sync, m, e, nil, nil), "O5", "R-DOM", an.FuncName(sync), "expandSparse-before-modifyDag", e.Pos(),
-					"the file is grown to writeStart before the overwrite", "Sync grows the file after overwriting: the overwrite runs on a DAG shorter than writeStart")
+	// ---- (b) the flush: grow -> modifyDag(curNode, writeStart) -> reload its result -> appendData(only if bytes are left).
+	// The steps are found by role (callers of modifyDag other than itself; calls of appendData fed from wrBuf), wherever
+	// they live: Sync itself or helpers it calls.
+	graph := an.XBLocalGraph(fns)
+	modFn := p.Func(mod, "DagModifier", "modifyDag")
+	// functions reachable from f through package-local static calls
+	reachFrom := func(f *ssa.Function) map[*ssa.Function]bool {
+		seen := map[*ssa.Function]bool{}
+		var walk func(x *ssa.Function)
+		walk = func(x *ssa.Function) {
+			for _, call := range an.AllCalls(x) {
+				if t := an.Callee(call).Static; t != nil && graph.In[t] && !seen[t] {
+					seen[t] = true
+					walk(t)
+				}
 			}
-			// the node written back is the one modifyDag produced
+		}
+		if f != nil {
+			walk(f)
+		}
+		return seen
+	}
+	inModRec := reachFrom(modFn)
+	isMod := func(in ssa.Instruction) bool {
+		call, ok := in.(ssa.CallInstruction)
+		// an entry into modifyDag from outside its own recursion (helpers it calls back through are part of it)
+		return ok && modFn != nil && an.Callee(call).Static == modFn && call.Parent() != modFn && !inModRec[call.Parent()]
+	}
+	performsMod := graph.XBPerforms(isMod, c07IsFailureReturn)
+	nFlush := 0
+	for _, fn := range fns {
+		for _, in := range an.XBActs(fn, isMod, nil) {
+			m := in.(ssa.CallInstruction)
+			nFlush++
+			a := an.Args(m)
+			c.Check(loadOf(a[0], fNode) && loadOf(a[1], fStart), "O5", "R-FLOW", an.FuncName(fn), "modifyDag(curNode,writeStart)", m.Pos(),
+				"the buffer is written into the current DAG at writeStart", "the flush overwrites at an offset other than dm.writeStart (or in a node other than dm.curNode): buffered bytes land at the wrong position")
+			for _, e := range an.Calls(fn, an.M(mod, "DagModifier", "expandSparse")) {
+				c.Check(an.Dominates(e, m) || !an.Reaches(fn, m, e, nil, nil), "O5", "R-DOM", an.FuncName(fn), "expandSparse-before-modifyDag", e.Pos(),
+					"the file is grown to writeStart before the overwrite", "the file is grown after overwriting: the overwrite runs on a DAG shorter than writeStart")
+			}
 			okGet := false
-			for _, g := range an.AllCalls(sync) {
+			for _, g := range an.AllCalls(fn) {
 				if ci := an.Callee(g); ci.Name == "Get" && ci.Invoke {
 					for _, ga := range g.Common().Args {
 						for _, r := range an.Result(m, 0) {
@@ -570,53 +643,62 @@ func c10Arithmetic(c *an.Ctx, fns []*ssa.Function, fWrBuf, fStart, fNode *types.
 					}
 				}
 			}
-			c.Check(okGet, "O5", "R-FLOW", an.FuncName(sync), "curNode=Get(modifyDag-result)", m.Pos(), "the DAG is reloaded from the CID modifyDag returned", "Sync does not reload dm.curNode from the CID returned by modifyDag")
+			c.Check(okGet, "O5", "R-FLOW", an.FuncName(fn), "curNode=Get(modifyDag-result)", m.Pos(), "the DAG is reloaded from the CID modifyDag returned", "dm.curNode is not reloaded from the CID returned by modifyDag")
 		}
-		for _, a := range apps {
-			okOrder := len(mods) > 0
-			for _, m := range mods {
-				if !an.Dominates(m, a) {
-					okOrder = false
-				}
-			}
-			c.Check(okOrder, "O5", "R-DOM", an.FuncName(sync), "modifyDag-before-appendData", a.Pos(),
-				"bytes that overlap the existing file are written before the rest is appended", "Sync appends the buffer before (or without) overwriting the overlapping part: bytes are duplicated or misplaced")
-			// only when bytes are left in the buffer
-			var lens []ssa.Value
-			for _, l := range an.Calls(sync, an.M("bytes", "Buffer", "Len")) {
-				if v := an.CallValue(l); v != nil && loadOf(an.Recv(l), fWrBuf) {
-					lens = append(lens, v)
-				}
-			}
-			left := an.XBEdgesWhere(sync, func(r an.XBRel) bool {
-				k, isK := an.XBInt64(r.Y)
-				isLen := false
-				for _, l := range lens {
-					if r.X == l {
-						isLen = true
-					}
-				}
-				return isLen && isK && ((k == 0 && (r.Op == token.GTR || r.Op == token.NEQ)) || (k == 1 && r.Op == token.GEQ))
-			})
-			c.Check(len(left) > 0 && an.GuardedBy(sync, nil, a, left), "O5", "R-DOM", an.FuncName(sync), "appendData<=wrBuf.Len()>0", a.Pos(),
-				"append only what is left in the buffer", "Sync calls appendData although the buffer may be empty (not guarded by wrBuf.Len() > 0)")
-			// and what is appended is the buffer
-			okSrc := false
+		for _, a := range an.Calls(fn, an.M(mod, "DagModifier", "appendData")) {
+			// only the append of the write buffer (expandSparse appends a zero stream)
+			fromBuf := false
 			for _, r := range an.Roots(an.Args(a)[1], nil) {
 				if call, ok := r.(*ssa.Call); ok {
 					for _, ca := range call.Call.Args {
 						if loadOf(an.XBStripConv(ca), fWrBuf) {
-							okSrc = true
+							fromBuf = true
 						}
 						if mi, ok := ca.(*ssa.MakeInterface); ok && loadOf(mi.X, fWrBuf) {
-							okSrc = true
+							fromBuf = true
 						}
 					}
 				}
 			}
-			c.Check(okSrc, "O5", "R-FLOW", an.FuncName(sync), "appendData(splitter(wrBuf))", a.Pos(), "the appended stream is the write buffer", "Sync appends a stream that is not built from dm.wrBuf")
+			if !fromBuf {
+				continue
+			}
+			nFlush++
+			// preceded by the overwrite: here, or at every call site of this helper
+			okOrder := graph.HeldUp(fn, a, func(f *ssa.Function, at ssa.Instruction) bool {
+				for _, m := range an.XBActs(f, isMod, performsMod) {
+					if an.Dominates(m, at) {
+						return true
+					}
+				}
+				return false
+			}, 3)
+			c.Check(okOrder, "O5", "R-DOM", an.FuncName(fn), "modifyDag-before-appendData", a.Pos(),
+				"bytes that overlap the existing file are written before the rest is appended", "the buffer is appended before (or without) overwriting the overlapping part: bytes are duplicated or misplaced")
+			okLeft := graph.HeldUp(fn, a, func(f *ssa.Function, at ssa.Instruction) bool {
+				var lens []ssa.Value
+				for _, l := range an.Calls(f, an.M("bytes", "Buffer", "Len")) {
+					if v := an.CallValue(l); v != nil && loadOf(an.Recv(l), fWrBuf) {
+						lens = append(lens, v)
+					}
+				}
+				left := an.XBEdgesWhere(f, func(r an.XBRel) bool {
+					k, isK := an.XBInt64(r.Y)
+					isLen := false
+					for _, l := range lens {
+						if r.X == l {
+							isLen = true
+						}
+					}
+					return isLen && isK && ((k == 0 && (r.Op == token.GTR || r.Op == token.NEQ)) || (k == 1 && r.Op == token.GEQ))
+				})
+				return len(left) > 0 && an.GuardedBy(f, nil, at, left)
+			}, 3)
+			c.Check(okLeft, "O5", "R-DOM", an.FuncName(fn), "appendData<=wrBuf.Len()>0", a.Pos(),
+				"append only what is left in the buffer", "appendData is called for the write buffer although it may be empty (not guarded by wrBuf.Len() > 0)")
 		}
 	}
+	c.Min("O5 flush steps (modifyDag / appendData of the buffer)", nFlush, 1)
 
 	// ---- (c) recursive descents by child size
 	nDesc := 0
@@ -625,8 +707,8 @@ func c10Arithmetic(c *an.Ctx, fns []*ssa.Function, fWrBuf, fStart, fNode *types.
 			continue
 		}
 		for _, rc := range an.AllCalls(fn) {
-			if an.Callee(rc).Static != fn {
-				continue
+			if t := an.Callee(rc).Static; t != fn && !(t != nil && graph.In[t] && reachFrom(t)[fn]) {
+				continue // neither a self call nor a call to a helper that calls back
 			}
 			// a descent: the self call sits in a loop over the children, or leaves it (break) with a running sum as operand
 			inLoop := an.XBInCycle(rc.Block())
@@ -667,7 +749,7 @@ func c10Arithmetic(c *an.Ctx, fns []*ssa.Function, fWrBuf, fStart, fNode *types.
 					off = a
 				}
 			}
-			if child == nil || off == nil {
+			if off == nil {
 				continue
 			}
 			nDesc++
@@ -724,12 +806,20 @@ func c10Arithmetic(c *an.Ctx, fns []*ssa.Function, fWrBuf, fStart, fNode *types.
 				"a child is entered only where the target lies before its end", "the descent into a child is not guarded by target < passed + childsize on the same values: the wrong child is modified, or target - passed underflows")
 			// B is the size of the very child that is entered
 			okB := false
-			if fc, ok := an.IsCallTo(B, an.M(mod, "", "fileSize")); ok && fc.Call.Args[0] == child {
+			if fc, ok := an.IsCallTo(B, an.M(mod, "", "fileSize")); ok && child != nil && fc.Call.Args[0] == child {
 				okB = true
 			}
 			if l, ok := B.(*ssa.UnOp); ok && l.Op == token.MUL {
 				if ia, ok := l.X.(*ssa.IndexAddr); ok {
-					if gn, ok := an.IsCallTo(child, an.M("github.com/ipfs/go-ipld-format", "Link", "GetNode")); ok {
+					// the helper that fetches the child itself receives the same index
+					if child == nil {
+						for _, a := range args {
+							if a == ia.Index {
+								okB = true
+							}
+						}
+					}
+					if gn, ok := an.IsCallTo(child, an.M("github.com/ipfs/go-ipld-format", "Link", "GetNode")); ok && child != nil {
 						if ll, ok := an.Recv(gn).(*ssa.UnOp); ok && ll.Op == token.MUL {
 							if ia2, ok := ll.X.(*ssa.IndexAddr); ok && ia2.Index == ia.Index {
 								okB = true
@@ -827,32 +917,41 @@ func c10Arithmetic(c *an.Ctx, fns []*ssa.Function, fWrBuf, fStart, fNode *types.
 			}
 		}
 	}
-	c.Min("O5 recursive descents", nDesc, 2)
+	c.Min("O5 recursive descents", nDesc, 1)
 
 	// ---- (d) leaf truncation cuts at the requested size; Truncate hands its own size down and rejects a negative one
-	if tr := p.Func(mod, "DagModifier", "Truncate"); tr != nil {
-		size := ssa.Value(tr.Params[1])
-		for _, call := range an.Calls(tr, an.M(mod, "DagModifier", "dagTruncate")) {
-			a := an.Args(call)
-			c.Check(an.XBStripConv(a[2]) == size && loadOf(a[1], fNode), "O5", "R-FLOW", an.FuncName(tr), "dagTruncate(curNode,size)", call.Pos(),
-				"the current DAG is truncated to the requested size", "Truncate cuts a node other than dm.curNode or at a size other than its argument")
-		}
-		nonneg := an.XBEdgesWhere(tr, func(r an.XBRel) bool {
-			k, isK := an.XBInt64(r.Y)
-			return isK && r.X == size && ((k == 0 && r.Op == token.GEQ) || (k == -1 && r.Op == token.GTR))
-		})
-		bad := ""
-		pos := tr.Pos()
-		an.Instrs(tr, func(in ssa.Instruction) {
-			if cv, ok := in.(*ssa.Convert); ok && cv.X == size {
-				if b, ok := cv.Type().Underlying().(*types.Basic); ok && b.Info()&types.IsUnsigned != 0 && an.Reaches(tr, nil, in, nonneg, nil) {
-					bad = "uint64(size)"
-					pos = cv.Pos()
+	// every entry into dagTruncate from outside cuts dm.curNode at a size that derives from a signed parameter which
+	// was tested non-negative (in the calling function or, for a helper, at its call sites)
+	if dtf := p.Func(mod, "DagModifier", "dagTruncate"); dtf != nil {
+		nTr := 0
+		for _, fn := range fns {
+			for _, call := range an.Calls(fn, an.M(mod, "DagModifier", "dagTruncate")) {
+				if fn == dtf {
+					continue
 				}
+				nTr++
+				a := an.Args(call)
+				c.Check(loadOf(a[1], fNode), "O5", "R-FLOW", an.FuncName(fn), "dagTruncate(curNode,_)", call.Pos(),
+					"the current DAG is the one that is truncated", "a node other than dm.curNode is truncated")
+				okNeg := graph.HeldUpV(fn, call, an.XBStripConv(a[2]), func(f *ssa.Function, at ssa.Instruction, v ssa.Value) bool {
+					par, ok := v.(*ssa.Parameter)
+					if !ok {
+						return false
+					}
+					if b, ok := par.Type().Underlying().(*types.Basic); !ok || b.Info()&types.IsUnsigned != 0 {
+						return false
+					}
+					nonneg := an.XBEdgesWhere(f, func(r an.XBRel) bool {
+						k, isK := an.XBInt64(r.Y)
+						return isK && r.X == ssa.Value(par) && ((k == 0 && r.Op == token.GEQ) || (k == -1 && r.Op == token.GTR))
+					})
+					return len(nonneg) > 0 && an.GuardedBy(f, nil, at, nonneg)
+				}, 3)
+				c.Check(okNeg, "O5", "R-DOM", an.FuncName(fn), "negative-size-rejected", call.Pos(),
+					"the size handed to dagTruncate is a signed argument that was tested non-negative", "the size handed to dagTruncate does not derive from a signed parameter tested >= 0: a negative Truncate size is converted to a huge unsigned value (nil node dereference) instead of being rejected, or the DAG is cut at a size other than the requested one")
 			}
-		})
-		c.Check(bad == "", "O5", "R-DOM", an.FuncName(tr), "negative-size-rejected", pos,
-			"the size is converted to unsigned only where it was tested non-negative", "Truncate converts its signed size to unsigned without rejecting a negative value: Truncate(-1) walks the DAG with a huge size (nil node dereference) instead of returning an error")
+		}
+		c.Min("O5 entries into dagTruncate", nTr, 1)
 	}
 	if dt := p.Func(mod, "DagModifier", "dagTruncate"); dt != nil {
 		size := ssa.Value(dt.Params[len(dt.Params)-1])
@@ -872,6 +971,6 @@ func c10Arithmetic(c *an.Ctx, fns []*ssa.Function, fWrBuf, fStart, fNode *types.
 			c.Check(sl.Low == nil && sl.High == size, "O5", "R-FLOW", an.FuncName(dt), "leaf-data[:size]", sl.Pos(),
 				"leaf data is cut to [:size]", "a leaf is truncated to something other than data[:size]")
 		})
-		c.Min("O5 leaf truncation slices", n, 2)
+		c.Min("O5 leaf truncation slices", n, 1)
 	}
 }
